@@ -90,12 +90,15 @@ class DepSet(boolean.AndRestriction, caching=False):
                     if not depsets[-1] or not raw_conditionals:
                         raise DepsetParseError(dep_str, attr=attr)
                     elif raw_conditionals[-1] in operators:
-                        if len(depsets[-1]) == 1:
+                        op = operators[raw_conditionals[-1]]
+                        # a lone child stands for its group only in and/or groups;
+                        # '?? ( a )' is not 'a'.
+                        if len(depsets[-1]) == 1 and getattr(
+                            op, "_evaluate_collapsible", False
+                        ):
                             depsets[-2].append(depsets[-1][0])
                         else:
-                            depsets[-2].append(
-                                operators[raw_conditionals[-1]](*depsets[-1])
-                            )
+                            depsets[-2].append(op(*depsets[-1]))
                     else:
                         node_conds = True
                         c = raw_conditionals[-1]
